@@ -564,4 +564,121 @@ def riEntry {α : Type} (r dc : Nat) : TD α → Except Err (TD α)
 termination_by e => (sizeOf e, 0)
 end
 
+/-! ### torch.stack / torch.cat of tensordicts (dense result; _torch_func.py:_stack / _cat after the dim range-check fixes) -/
+
+def lookupEntry {α : Type} (k : String) : List (String × TD α) → Option (TD α)
+  | [] => none
+  | (k', e) :: rest => if k' = k then some e else lookupEntry k rest
+
+def asLeaf {α : Type} : TD α → Option (T α)
+  | .leaf t => some t
+  | .node _ _ _ => none
+
+/-- `set(td.keys())` of every operand equals the first one's (`_check_keys(strict=True)`) -/
+def sameKeySets {α : Type} (first : List (String × TD α)) (others : List (List (String × TD α))) : Bool :=
+  others.all fun es => (es.map (·.1)).all (fun k => (first.map (·.1)).contains k) && (first.map (·.1)).all (fun k => (es.map (·.1)).contains k)
+
+mutual
+/-- one level of `_stack`: operands already known to be nodes; `dim` already normalised against the first operand -/
+def stackLevel {α : Type} [Inhabited α] (dim : Nat) (bs : Shape) (names : Names) (first : List (String × TD α))
+    (others : List (Shape × List (String × TD α))) : Except Err (TD α) :=
+  if dim > bs.length then .error .index
+  else if others.any (fun o => o.1 ≠ bs) then .error .runtime      -- "congruent batch sizes"
+  else if ¬ sameKeySets first (others.map (·.2)) then .error .runtime   -- "The sets of keys … are exclusive"
+  else
+    match stackEntries dim first (others.map (·.2)) with
+    | .error e => .error e
+    | .ok es' =>
+      let nm : Names := names.map (fun l => l.insertIdx dim none)
+      .ok (.node (bs.insertIdx dim (others.length + 1)) (normNames nm) es')
+termination_by (sizeOf first, 1)
+
+def stackEntries {α : Type} [Inhabited α] (dim : Nat) : List (String × TD α) → List (List (String × TD α)) →
+    Except Err (List (String × TD α))
+  | [], _ => .ok []
+  | (k, e) :: rest, others =>
+    match stackEntry dim e (others.filterMap (lookupEntry k)) with
+    | .error err => .error err
+    | .ok e' => match stackEntries dim rest others with
+      | .error err => .error err
+      | .ok rest' => .ok ((k, e') :: rest')
+termination_by es _ => (sizeOf es, 0)
+
+def stackEntry {α : Type} [Inhabited α] (dim : Nat) : TD α → List (TD α) → Except Err (TD α)
+  | .leaf t, vals =>
+    -- every operand must hold a tensor of the same shape here; then `torch.stack(values, dim)`
+    match vals.mapM asLeaf with
+    | none => .error .runtime
+    | some ts => if ts.any (fun u => u.shape ≠ t.shape) then .error .runtime
+                 else .ok (.leaf (T.stack (t :: ts) dim))
+  | .node bs2 nm2 es2, vals =>
+    -- nested: `_stack(values, dim)` on the nested tensordicts
+    match vals.mapM (fun v => match v with | .node b _ es => some (b, es) | .leaf _ => none) with
+    | none => .error .runtime
+    | some os => stackLevel dim bs2 nm2 es2 os
+termination_by e _ => (sizeOf e, 0)
+end
+
+/-- `torch.stack(list_of_tensordicts, dim)` -/
+def tdStack {α : Type} [Inhabited α] (d : Int) : List (TD α) → Except Err (TD α)
+  | [] => .error .runtime
+  | .leaf _ :: _ => .error .type
+  | .node bs names es :: rest =>
+    let dim : Int := if d < 0 then bs.length + d + 1 else d
+    if dim < 0 ∨ dim > bs.length then .error .index
+    else match rest.mapM (fun v => match v with | .node b _ es => some (b, es) | .leaf _ => none) with
+      | none => .error .type
+      | some os => stackLevel dim.toNat bs names es os
+
+mutual
+/-- one level of `_cat` -/
+def catLevel {α : Type} [Inhabited α] (d : Int) (bs : Shape) (names : Names) (first : List (String × TD α))
+    (others : List (Shape × List (String × TD α))) : Except Err (TD α) :=
+  let dim : Int := if d < 0 then bs.length + d else d
+  if dim < 0 ∨ dim ≥ bs.length then .error .runtime
+  else if others.any (fun o => o.1.length ≤ dim.toNat) then .error .index     -- `td.batch_size[dim]`
+  else if ¬ sameKeySets first (others.map (·.2)) then .error .key            -- `_check_keys(strict=True)` → KeyError
+  else
+    match catEntries dim.toNat first (others.map (·.2)) with
+    | .error e => .error e
+    | .ok es' =>
+      let total := bs.getD dim.toNat 0 + (others.map (fun o => o.1.getD dim.toNat 0)).sum
+      .ok (.node (bs.set dim.toNat total) names es')
+termination_by (sizeOf first, 1)
+
+def catEntries {α : Type} [Inhabited α] (dim : Nat) : List (String × TD α) → List (List (String × TD α)) →
+    Except Err (List (String × TD α))
+  | [], _ => .ok []
+  | (k, e) :: rest, others =>
+    match catEntry dim e (others.filterMap (lookupEntry k)) with
+    | .error err => .error err
+    | .ok e' => match catEntries dim rest others with
+      | .error err => .error err
+      | .ok rest' => .ok ((k, e') :: rest')
+termination_by es _ => (sizeOf es, 0)
+
+def catEntry {α : Type} [Inhabited α] (dim : Nat) : TD α → List (TD α) → Except Err (TD α)
+  | .leaf t, vals =>
+    -- `torch.cat(items, dim)`: same rank, same sizes except along `dim`
+    match vals.mapM asLeaf with
+    | none => .error .runtime
+    | some ts =>
+      if ts.any (fun u => u.shape.length ≠ t.shape.length ∨ u.shape.set dim 0 ≠ t.shape.set dim 0) then .error .runtime
+      else .ok (.leaf (T.cat (t :: ts) dim))
+  | .node bs2 nm2 es2, vals =>
+    match vals.mapM (fun v => match v with | .node b _ es => some (b, es) | .leaf _ => none) with
+    | none => .error .runtime
+    | some os => catLevel dim bs2 nm2 es2 os
+termination_by e _ => (sizeOf e, 0)
+end
+
+/-- `torch.cat(list_of_tensordicts, dim)` -/
+def tdCat {α : Type} [Inhabited α] (d : Int) : List (TD α) → Except Err (TD α)
+  | [] => .error .runtime
+  | .leaf _ :: _ => .error .type
+  | .node bs names es :: rest =>
+    match rest.mapM (fun v => match v with | .node b _ es => some (b, es) | .leaf _ => none) with
+    | none => .error .type
+    | some os => catLevel d bs names es os
+
 end TdVerif.C02
